@@ -174,7 +174,7 @@ var c18Types = []string{"Object", "Actor", "Collection", "OrderedCollection", "C
 
 func init() {
 	campaigns["C18"] = func(c *Ctx) {
-		c.Rule = "pairs (to, from) of the six supported Go types (+ Place/Tombstone as object types) generated type-directed with independent random subsets of properties on each side (each property set with probability 0.3 on either side, from a fresh value pool, so that a property is unset / set-on-one-side / set-to-different-values), same id and type; then mismatching ids, differing/empty/unsupported types (activities, generic names), nil and typed-nil sides, IRIs. Oracle: from unchanged; refusal leaves to untouched; old-or-new per property; nothing lost; merged properties taken from `from`; id/type from `from`. Pairs the model declares outside its domain (conversions through typed views of another Go type) are judged by the oracle only."
+		c.Rule = "pairs (to, from) of the six supported Go types (+ Place/Tombstone as object types) generated type-directed with independent random subsets of properties on each side (each property set with probability 0.3 on either side, from a fresh value pool, so that a property is unset / set-on-one-side / set-to-different-values), same id and type, in a third of the pairs one recipient named in two addressing lists of `from`; then mismatching ids, differing/empty/unsupported types (activities, generic names), nil and typed-nil sides, IRIs. Oracle: from unchanged; refusal leaves to untouched; old-or-new per property; nothing lost; merged properties taken from `from`; id/type from `from`. Pairs the model declares outside its domain (conversions through typed views of another Go type) are judged by the oracle only."
 		for i := 0; i < c.N(6000, 150000); i++ {
 			goType := c18Types[c.R.Intn(len(c18Types))]
 			g1 := &GenCfg{MaxDepth: 1, Density: 30, Links: true, MultiLang: true, Negatives: true, Zones: true, counter: 1000 * (2*i + 1)}
@@ -188,6 +188,29 @@ func init() {
 			tf["ID"], ff["ID"] = T{"s": id}, T{"s": id}
 			tf["Type"], ff["Type"] = T{"s": typ}, T{"s": typ}
 			tag := "same-id-type/" + goType
+			// the same recipient named in two addressing lists of `from` (a public post: to Public, cc Public + followers)
+			if c.R.Chance(35) {
+				shared := T{"iri": g2.nextID("shared-recipient")}
+				lists := []string{"To", "CC", "Bto", "BCC", "Audience"}
+				a, b := lists[c.R.Intn(len(lists))], lists[c.R.Intn(len(lists))]
+				for _, name := range []string{a, b} {
+					if fieldKind(goType, name) != "items" {
+						continue
+					}
+					lv, _ := ff[name].(T)
+					if lv == nil {
+						lv = T{"list": []interface{}{}}
+					}
+					l := asList(lv["list"])
+					if c.R.Bool() {
+						l = append(l, cloneTree(shared))
+					} else {
+						l = append([]interface{}{cloneTree(shared)}, l...)
+					}
+					lv["list"] = l
+					ff[name] = lv
+				}
+			}
 			switch p := c.R.Intn(100); {
 			case p < 6:
 				ff["ID"] = T{"s": id + "/other"}
